@@ -5,6 +5,8 @@
 # applied on top of one another), encoded as nested integer lists:
 #   (0 s) str/String  (1 name) Symbol  (2 parts) Text  (3 name parts) Tag  (4 url ext parts) HRef
 #   (5 parts) Protected  (6) an int (malformed part)
+#   (7 mode url ext parts) HRef with the url given as String(url) [1] / Text(url) [2] / Text(url[:k], url[k:]) [3]
+#   (8 mode name parts) Tag with the name given as Text(name) [2] / Text(name[:k], name[k:]) [3]
 #   (10 e) upper (11 e) lower (12 e) capitalize (13 e) capfirst (14 e p) add_period(p) (15 e) abbreviate
 #   (16 e i j) e[i:j] (i, j options)  (17 e i) e[i]  (18 a b) a + b  (19 a b) a.append(b)
 #   (20 sep es) sep.join(es)  (21 e sep keep k) e.split(sep, keep)[k]
@@ -79,12 +81,20 @@ def needles(l):
     l = [S(x) for x in l]
     return l[0] if len(l) == 1 else tuple(l)
 
+def _strobj(u, mode):
+    """a url / tag name as the str itself or as a rich-text object (the documented alternative)"""
+    import pybtex.richtext as R
+    if mode == 1: return R.String(u)
+    if mode == 2: return R.Text(u)
+    if mode == 3: return R.Text(u[:len(u) // 2], u[len(u) // 2:])
+    return u
+
 def apply_node(op, params, objs):
     """one API call on already-built operand objects"""
     import pybtex.richtext as R
     if op == 2: return R.Text(*objs)
-    if op == 3: return R.Tag(S(params[0]), *objs)
-    if op == 4: return R.HRef(S(params[0]), *objs, external=bool(params[1]))
+    if op == 3: return R.Tag(_strobj(S(params[0]), params[1] if len(params) > 1 else 0), *objs)
+    if op == 4: return R.HRef(_strobj(S(params[0]), params[2] if len(params) > 2 else 0), *objs, external=bool(params[1]))
     if op == 5: return R.Protected(*objs)
     x = objs[0]
     if op == 10: return x.upper()
@@ -113,6 +123,8 @@ def node_parts(e):
     if t == 2 or t == 5: return t, [], e[1], True
     if t == 3: return t, [e[1]], e[2], True
     if t == 4: return t, [e[1], e[2]], e[3], True
+    if t == 7: return 4, [e[2], e[3], e[1]], e[4], True
+    if t == 8: return 3, [e[2], e[1]], e[3], True
     if t in (10, 11, 12, 13, 15): return t, [], [e[1]], False
     if t == 14: return t, [e[2]], [e[1]], False
     if t == 16: return t, [e[2], e[3]], [e[1]], False
@@ -192,10 +204,13 @@ FUNCS = {
     5: ('text.endswith(suffix | tuple)', impl_endswith, ('T', 'E', ('L', 'S'))),
     6: ('text.isalpha()', impl_isalpha, ('T', 'E')),
     7: ('text1 == text2', impl_eq, ('T', 'E', 'E')),
+    8: ('richtext expression over characters whose case mapping changes length (oracle only: outside the modelled character domain)', impl_eval, ('T', 'E')),
 }
 
 def canon(fn, out):
     """the trace is for the oracle only; error class not compared"""
+    if fn == 8:
+        return []          # oracle-only stream: the model (ASCII case mapping) is not consulted
     if isinstance(out, list) and out and out[0] == 0:
         return [0, out[1]]
     if isinstance(out, list) and out and out[0] in (1, 2, 3):
@@ -219,9 +234,13 @@ def _expr_shrinks(e):
     if t in (2, 5): mk = lambda ps: [t, ps]
     elif t == 3: mk = lambda ps: [3, e[1], ps]
     elif t == 4: mk = lambda ps: [4, e[1], e[2], ps]
+    elif t == 7: mk = lambda ps: [7, e[1], e[2], e[3], ps]
+    elif t == 8: mk = lambda ps: [8, e[1], e[2], ps]
     else: mk = None
     if mk:
         ps = subs
+        if t == 7: yield [4, e[2], e[3], ps]
+        if t == 8: yield [3, e[2], ps]
         for i in range(len(ps)):
             yield mk(ps[:i] + ps[i + 1:])
         for i, p in enumerate(ps):
@@ -294,12 +313,17 @@ def erase_ext(f):
 def protected(p):
     return ('p',) in p[1]
 
-def conv(p, up):
+def convs(p, up):
+    """str.upper / str.lower on one pair: a character that expands ('ß' -> 'SS') keeps its markup on
+    every resulting character; protected pairs and symbols are untouched"""
     a, st = p
     if a[0] != 'c' or protected(p):
-        return p
+        return [p]
     c = chr(a[1]); d = c.upper() if up else c.lower()
-    return (('c', ord(d)), st) if len(d) == 1 else p
+    return [(('c', ord(x)), st) for x in d]
+
+def conv_all(f, up):
+    return [q for p in f for q in convs(p, up)]
 
 def leaves(d, acc=None, prot=False):
     """leaf segmentation of a structure dump: list of (length, is_string_leaf, protected)"""
@@ -464,10 +488,10 @@ def check_node(ent):
     x = F[0]; mx = top_markup(ins[0])
     if op in (10, 11):
         if out is None: return 'upper/lower raised %s' % ent[5]
-        return cmp([conv(p, op == 10) for p in x], 'upper' if op == 10 else 'lower')
+        return cmp(conv_all(x, op == 10), 'upper' if op == 10 else 'lower')
     if op in (12, 13):
         if out is None: return 'capitalize/capfirst raised %s' % ent[5]
-        exp = [conv(p, True) for p in x[:1]] + [conv(p, False) if op == 12 else p for p in x[1:]]
+        exp = conv_all(x[:1], True) + (conv_all(x[1:], False) if op == 12 else x[1:])
         return cmp(exp, 'capitalize' if op == 12 else 'capfirst')
     if op == 14:
         if out is None: return 'add_period raised %s' % ent[5]
@@ -606,6 +630,11 @@ def show(e):
     if t == 3: return 'Tag(%s)' % ', '.join([repr(S(e[1]))] + [show(p) for p in e[2]])
     if t == 4: return 'HRef(%s%s)' % (', '.join([repr(S(e[1]))] + [show(p) for p in e[3]]), ', external=True' if e[2] else '')
     if t == 5: return 'Protected(%s)' % ', '.join(show(p) for p in e[1])
+    if t in (7, 8):
+        u = S(e[2]); k = len(u) // 2
+        uo = {1: 'String(%r)' % u, 2: 'Text(%r)' % u, 3: 'Text(%r, %r)' % (u[:k], u[k:])}.get(e[1], repr(u))
+        if t == 8: return 'Tag(%s)' % ', '.join([uo] + [show(p) for p in e[3]])
+        return 'HRef(%s%s)' % (', '.join([uo] + [show(p) for p in e[4]]), ', external=True' if e[3] else '')
     r = lambda x: ('String(%s)' % show(x)) if x[0] == 0 else show(x)
     if t in (10, 11, 12, 13, 15): return '%s.%s()' % (r(e[1]), {10: 'upper', 11: 'lower', 12: 'capitalize', 13: 'capfirst', 15: 'abbreviate'}[t])
     if t == 14: return '%s.add_period(%r)' % (r(e[1]), S(e[2]))
@@ -621,7 +650,7 @@ def showsep(sp):
 
 def describe(fn, a):
     r = lambda x: ('String(%s)' % show(x)) if x[0] == 0 else show(x)
-    if fn == 1: return {'python': r(a[0])}
+    if fn in (1, 8): return {'python': r(a[0])}
     if fn == 2: return {'python': '%s.split(%s, %r)' % (r(a[0]), showsep(a[1]), pykeep(a[2]))}
     if fn == 3: return {'python': '%r in %s' % (S(a[1]), r(a[0]))}
     if fn in (4, 5): return {'python': '%s.%s(%r)' % (r(a[0]), 'startswith' if fn == 4 else 'endswith', needles(a[1]))}
@@ -631,7 +660,7 @@ def describe(fn, a):
 
 def nontrivial(fn, arg, out):
     """the model value has at least two parts or some markup, or the observation is True"""
-    if out[0] != 0: return False
+    if fn == 8 or not out or out[0] != 0: return False
     if fn == 1:
         return any(ms for _, ms in out[1][1]) or (out[1][0][0] >= 2 and len(out[1][0][-1]) > 1)
     if fn == 2: return len(out[1]) > 1
@@ -780,7 +809,7 @@ PINNED = [
     (4, [T(), [norm('')]]), (3, [NBSP, norm('')]), (4, [NBSP, [norm('')]]),     # empty needle
 ]
 
-def gen(tier, rng):
+def _gen0(tier, rng):
     quick = tier == 'quick'
     for fn, a in PINNED:
         yield ('pinned', fn, a)
@@ -900,6 +929,81 @@ def gen(tier, rng):
             e = rand_op(rng, e, 1)
         yield ('malformed', 1, [e])
 
+# ---- url / tag name passed as a rich-text object (HRef(String(u), ...), Tag(Text(n), ...)) ----
+_HMODES = [1, 0, 2, 3]      # successive HRef nodes of one case: String(url), plain str, Text(url), Text(url[:k], url[k:])
+_TMODES = [0, 2, 0, 3]      # successive Tag nodes: plain str, Text(name), plain str, Text(name[:k], name[k:])
+def objnames(e, st):
+    """the same expression with urls / tag names passed as String / Text objects, in rotation, so that
+    links and tags built from different forms of the same url / name meet (merge, ==)"""
+    t = e[0]
+    if t in (0, 1, 6): return e
+    m = lambda l: [objnames(p, st) for p in l]
+    if t in (2, 5): return [t, m(e[1])]
+    if t == 3:
+        ps = m(e[2]); mode = _TMODES[st[1] % 4]; st[1] += 1
+        return [8, mode, e[1], ps] if mode else [3, e[1], ps]
+    if t == 4:
+        ps = m(e[3]); mode = _HMODES[st[0] % 4]; st[0] += 1
+        return [7, mode, e[1], e[2], ps] if mode else [4, e[1], e[2], ps]
+    if t in (7, 8): return e
+    if t == 20: return [20, objnames(e[1], st), m(e[2])]
+    if t in (18, 19): return [t, objnames(e[1], st), objnames(e[2], st)]
+    return [t, objnames(e[1], st)] + list(e[2:])
+
+def has_named(e):
+    t = e[0]
+    if t in (0, 1, 6): return False
+    if t in (3, 4): return True
+    if t in (2, 5): return any(has_named(p) for p in e[1])
+    if t in (7, 8): return False
+    if t == 20: return has_named(e[1]) or any(has_named(p) for p in e[2])
+    if t in (18, 19): return has_named(e[1]) or has_named(e[2])
+    return has_named(e[1])
+
+_OBJ_STREAMS = ('pinned', 'exhaustive_ctor', 'exhaustive_unary', 'exhaustive_binary', 'regroup', 'random_ops', 'exhaustive_observe')
+
+# ---- characters whose case mapping changes the number of characters (oracle only) ----
+EXPANDING = ['stra\u00dfe', '\ufb01', '\ufb02ag', '\u0130', '\u0149', '\u01f0', '\u0390', 'a\u00df', '\u00dfb', 'I\u0130i', '\ufb03x \u00df']
+def expanding_cases(tier, rng):
+    shapes = []
+    for s in EXPANDING:
+        for s2 in ('', 'x', EXPANDING[(len(s) * 3) % len(EXPANDING)]):
+            shapes += [T(E(s)), E(s), TAG('em', E(s)), T(E(s2), TAG('em', E(s))), PROT(E(s)), T(PROT(E(s)), E(s2)),
+                       T(TAG('b', PROT(E(s)), E(s)), E(s2)), HREF('u', 1, E(s), TAG('em', E(s2))), T(E(s), NBSP, E(s2))]
+    if tier == 'quick':
+        shapes = shapes[::3]
+    for t in shapes:
+        for op in (10, 11, 12, 13):
+            e = [op, t]
+            yield e
+            n = nchars(t) + 3
+            for follow in ([17, e, 0], [17, e, -1], [17, e, 1], [16, e, [1], []], [16, e, [], [-1]], [16, e, [2], [n]],
+                           [13, e], [12, e], [10, [11, e]], [18, e, E('!')], [14, e, norm('.')], [19, e, t]):
+                yield follow
+
+def gen(tier, rng):
+    """the base streams, plus for every case of the listed streams that contains an HRef or a Tag a variant
+    with the url / name passed as String / Text objects, plus the oracle-only expanding-characters stream"""
+    stride = {'exhaustive_binary': 8, 'exhaustive_observe': 5, 'exhaustive_ctor': 3} if tier == 'quick' else {'exhaustive_binary': 3, 'exhaustive_observe': 2}
+    seen = {}
+    for (st, fn, a) in _gen0(tier, rng):
+        yield (st, fn, a)
+        if st in _OBJ_STREAMS and fn != 2:
+            a = norm(a)
+            if not (has_named(a[0]) or (fn == 7 and has_named(a[1]))):
+                continue
+            seen[st] = seen.get(st, 0) + 1
+            if seen[st] % stride.get(st, 1):
+                continue
+            if fn == 7:
+                if has_named(a[0]) or has_named(a[1]):
+                    yield (st + '_nameobj', 7, [objnames(a[0], [0, 0]), a[1]])          # object form == plain form
+                    yield (st + '_nameobj', 7, [objnames(a[0], [0, 0]), objnames(a[1], [2, 1])])
+            elif has_named(a[0]):
+                yield (st + '_nameobj', fn, [objnames(a[0], [0, 0])] + list(a[1:]))
+    for e in expanding_cases(tier, rng):
+        yield ('expanding_case_oracle_only', 8, [e])
+
 def _damage(rng, e):
     if e[0] < 2 or not e[-1] or rng.random() < 0.3:
         return [6]
@@ -912,7 +1016,12 @@ RULE = ('pinned: the inputs of the defects F8 F9 F10 F17 F23 and every disagreem
         '[-(n+2), n+2] and None, every unary method, split with 7 separators x 3 keep_empty_parts values, contains / '
         'startswith / endswith with every substring up to length 3 (and tuples), + / append / == on all pairs, join on triples, '
         'and regrouped constructions compared with ==; random: deeper trees over 24 strings with up to 6 methods applied on top '
-        'of one another; malformed: non-text parts, bad separators, out-of-range piece indices, the deprecated tag name. '
+        'of one another; malformed: non-text parts, bad separators, out-of-range piece indices, the deprecated tag name; '
+        '_nameobj: every case of the constructor / unary / binary / == / regroup / observer / random streams that contains an HRef or a Tag is run '
+        'a second time with the urls / tag names passed as String(url), Text(url), Text(url[:k], url[k:]) objects in rotation (== also against the '
+        'plain-str form); expanding_case_oracle_only: strings with characters whose case mapping changes length (sz, fi/fl ligatures, dotted I, ...) '
+        'inside and outside Protected / Tag / HRef, upper/lower/capitalize/capfirst followed by len, str, index, slice, +, append, add_period -- '
+        'ORACLE ONLY, the model (ASCII case mapping) is not compared on this stream. '
         'distinct = distinct (function, argument); non-trivial = the value has markup or several parts / the list has several '
         'pieces / the observation is True.')
 EXHAUSTIVE = {'quick': 'all construction expressions of <= 3 nodes (6 node kinds, 4 leaves) and every 3rd of the 4-node ones; every slice (i, j) and index in [-(n+2), n+2] + None on all expressions of <= 2 nodes (and every 5th 3-node one); all unary methods, split (7 separators x 3 keep values), observers with every substring <= 3 on all of <= 2 nodes (every 2nd 3-node one); +, append, == on all pairs of <= 2 nodes; split at part boundaries on all expressions of <= 4 nodes over {a, space, "b c", -} x {Text, Tag, Protected}',
@@ -920,7 +1029,7 @@ EXHAUSTIVE = {'quick': 'all construction expressions of <= 3 nodes (6 node kinds
 TRUSTED_BASE = ['modelled (not verified) code: pybtex/richtext.py (all classes and methods named in Model/RichText.v); '
                 'str.upper/lower/isalpha are modelled on ASCII only, \\s as the 29 Python whitespace code points; '
                 'the regexes whitespace_re and delimiter_re are modelled by hand-written splitters (compared with the live objects through String.split on every run)']
-ASSUMPTIONS = ['characters whose case mapping changes length, and non-ASCII letters, are outside the compared domain (generators use ASCII, whitespace code points and a few non-letter symbols)']
+ASSUMPTIONS = ['non-ASCII letters are outside the domain on which model and implementation are compared (those streams use ASCII, whitespace code points and a few non-letter symbols); characters whose case mapping changes length are exercised by the oracle-only stream expanding_case_oracle_only (expected values from Python str.upper/lower on the traced pairs, each resulting character keeping the markup of the one it came from)']
 PARTIAL = ['not proved, left to the correspondence run and the oracle: cut positions of split / string separators (F17s), split and abbreviate as steps inside ops_compose, an int index outside the bounds inside ops_compose (F23)',
            'immutability of operands is oracle-only: around every API call a deep snapshot (structure dump incl. external flags, tracing-back-end rendering, str, len) of each operand is compared before/after',
            'the _any theorems hold up to `erase`, which only reads the deprecated tag name emph as em (identity on every constructible text: erase_wf)',
